@@ -252,6 +252,17 @@ func (e notAnExceptionError) Error() string {
 	)
 }
 
+// referenceCycleError is raised when a constant, a service or the default
+// value of a field is defined in terms of itself.
+type referenceCycleError struct {
+	Kind string
+	Name string
+}
+
+func (e referenceCycleError) Error() string {
+	return fmt.Sprintf("%v %q is defined in terms of itself", e.Kind, e.Name)
+}
+
 type typeReferenceCycleError struct {
 	Nodes []TypeSpec
 }
